@@ -32,11 +32,11 @@ CLAIMED = {
    ref="§4 C12"),
  "C13": dict(level="other",
    technique="static analysis: value-origin dataflow of every store to Client.version (membership guard by slices.Contains on the client's set), recognition of the maximum-selection idiom, who-stamps-what on request construction",
-   text="Decides that whatever a server answers to version discovery, the version stored in the client originates only from candidates taken under a membership test against the client's configured set (or 1.0 under the same test on the discovery-unsupported branch), that the selection keeps the greater by CompareVersions rather than a positional pick (the former serverVersions[0] is repaired and guarded), that the store happens only when a common version exists, that discovery is bypassed exactly when a version is enforced, and that every request is built with the adopted version. The 31x32 table of version sets is not enumerated.",
+   text="Decides that whatever a server answers to version discovery, the version stored in the client originates only from candidates taken under a membership test against the client's configured set (or 1.0 under the same test on the discovery-unsupported branch), that the selection keeps the greater by CompareVersions rather than a positional pick (the former serverVersions[0] is repaired and guarded), that the store happens only when a common version exists, that discovery is bypassed exactly when a version is enforced, that every request is built with the adopted version, that the default version list enters a configured set only when that set is empty, and that the library's server answers a discovery-only request whatever version its header announces (without which client and server sets lacking 1.1 could not negotiate — repaired and guarded). The 31x32 table of version sets is not enumerated.",
    ref="§4 C13"),
  "C19": dict(level="other",
    technique="static analysis: discovery of continuation closures over middleware slices; write-after-creation rule on the captured chain position, parameter-forwarding identity, index/continuation/len-guard relations, who-may-write on the chain slices",
-   text="Decides ordering and re-entrancy for all three chains and every composition of stages: the position a continuation uses is bound per continuation and never written once it exists (the shared cursor that made a retrying middleware skip inner stages is repaired and guarded), stage and core receive the continuation's own context and message and their results are returned unchanged, stage k gets the continuation for k+1 with the core on the other edge of position < len(chain), chains start at 0, registration appends in order, and the chain slices are written only while being registered or constructed. User-written stages are outside.",
+   text="Decides ordering and re-entrancy for all three chains and every composition of stages: the position a continuation uses is bound per continuation and never written once it exists (the shared cursor that made a retrying middleware skip inner stages is repaired and guarded), stage and core receive the continuation's own context and message and their results are returned unchanged, stage k gets the continuation for k+1 with the core on the other edge of position < len(chain), chains start at 0, registration appends in order, the chain slices are written only while being registered or constructed and never alias a caller's slice, and the core handler works on the message it is given rather than on a copy of the request saved in the context. User-written stages are outside.",
    ref="§4 C19"),
  "C10": dict(level="other",
    technique="static analysis: who-may-call and lock-bracket dominance on the exchange path of package kmipclient; teardown-before-error-exit dominance after the request hand-off; per-connection ownership of hand-off channels; must-pass-through (Recv, ok edge of the assertion, store) before the read loop's hand-off",
@@ -52,7 +52,7 @@ CLAIMED = {
    ref="§4 C08"),
  "C16": dict(level="other",
    technique="static analysis: call-order and dominance checks on Shutdown/Serve/handleConn, WaitGroup accounting (Add before go, deferred Done first, Wait reachable from the deferred Close), goroutine join inventory",
-   text="Decides hook pairing and drain structure for every schedule at once: the terminate hook is deferred exactly once, only on the connect hook's success edge and with its context, after which handlers run synchronously in the same function; every connection goroutine is counted before it starts and un-counted by its first deferred call; Shutdown closes the listener, cancels the receive context, arms a 3 s timer that only cancels, waits, then cancels and returns; the loop waits on the receive context and contexts derive from the root; and every goroutine the package starts is joined on the way (the missing join of the per-connection loops is repaired and guarded). Timing and per-request outcomes under a real scheduler are not decided.",
+   text="Decides hook pairing and drain structure for every schedule at once: the terminate hook is deferred exactly once, only on the connect hook's success edge and with its context, after which handlers run synchronously in the same function; every connection goroutine is counted before it starts and un-counted by its first deferred call; Shutdown closes the listener, cancels the receive context, arms a 3 s timer that only cancels, waits, then cancels and returns; the loop waits on the receive context and contexts derive from the root; the connection object is closed on every exit of handleConn that follows its creation, and every goroutine the package starts is joined on the way (the missing join of the per-connection loops is repaired and guarded). Timing and per-request outcomes under a real scheduler are not decided.",
    ref="§4 C16"),
  "C04": dict(level="other",
    technique="static analysis: writer/reader lexical agreement rules over the XML/JSON codecs (parse-call base/width dataflow, forbidden Go-quoting in the JSON writer, unit-of-duration and separator/layout sibling checks, non-nil origin analysis of decoded byte strings, use of the sign pad in every big-integer writer)",
@@ -60,7 +60,7 @@ CLAIMED = {
    ref="§4 C04"),
  "C18": dict(level="other",
    technique="static analysis: range abstraction of every narrowing conversion in the text readers (bit size of the parse or dominating bounds check) against the writers' total domain; writer-panic preconditions",
-   text="Decides `whatever a reader can return, every writer can take`: every conversion of a parsed number to a narrower type or to a duration in the XML/JSON readers is justified by the bit size of its parse call or by a dominating bounds check inside the writers' domain (intervals in [0,2^32) s, 32-bit integers and enumerations), every explicit panic of a writer has a precondition those ranges (or C01.P5) establish, and the alternative lexical forms accepted on input land in the canonical domain. This is a necessary condition for re-encodability of accepted input; byte-equality of the second re-encoding is value-level and not decided.",
+   text="Decides `whatever a reader can return, every writer can take`: every conversion of a parsed number to a narrower type or to a duration in the XML/JSON readers is justified by the bit size of its parse call or by a dominating bounds check inside the writers' domain (intervals in [0,2^32) s, 32-bit integers and enumerations), every explicit panic of a writer has a precondition those ranges (or C01.P5) establish, the alternative lexical forms accepted on input land in the canonical domain (a tag being a 24-bit quantity), and text strings are handed back verbatim by the XML/JSON readers. This is a necessary condition for re-encodability of accepted input; byte-equality of the second re-encoding is value-level and not decided.",
    ref="§4 C18"),
  "C03": dict(level="other",
    technique="static analysis: constant tables of the binary writer against a hand-written specification table; byte-count abstract domain over the value closures; call-order and value-identity checks of the header writer and the length back-patch; must-pass-through of the sign-bit test in bigIntToBytes",
@@ -80,7 +80,7 @@ CLAIMED = {
    ref="§4 C01"),
  "C17": dict(level="proof",
    technique="static analysis: exhaustive table evaluation of the init-time registry from source literals (go/types constants) + pinned reference comparison",
-   text="Finite and exhaustive: every one of the 292 tags, 601 enumeration values and 22 mask flags registered by the init functions is evaluated from the source literals and shown unique in both directions within its scope, lexically safe for XML/JSON/text, identical to the pinned KMIP 1.0-1.4 registry, wired to its own tag in MarshalText/UnmarshalText, and registered only from init. A proof over the static registry model, not over sampled lookups.",
+   text="Finite and exhaustive: every one of the 292 tags, 601 enumeration values and 22 mask flags registered by the init functions is evaluated from the source literals and shown unique in both directions within its scope, lexically safe for XML/JSON/text, identical to the pinned KMIP 1.0-1.4 registry, wired to its own tag in MarshalText/UnmarshalText, registered only from init, and the mask renderers/parsers never order-compare a mask value (bit 31). A proof over the static registry model, not over sampled lookups.",
    ref="§4 C17"),
  "C05": dict(level="other",
    technique="static analysis: struct-tag plan model vs reviewed version table; SSA path check of the two gating wrappers; who-may-write rule on the version state",
@@ -88,7 +88,7 @@ CLAIMED = {
    ref="§4 C05"),
  "C06": dict(level="other",
    technique="static analysis: exhaustive table checks of the operation/object/attribute registries (go/types interface satisfaction, SSA constant returns) + dominance checks in the four hand-written payload decoders",
-   text="Exhaustive over the three registries (27 operations x 2 directions, 9 object types, 50 attributes): each registered type implements the interface the reflective constructor asserts, reports the code it is registered under, occupies one slot, and has the TTLV kind of the hand-written specification table; the batch-item decoders pick the payload constructor of their own direction from their own decoded Operation; unknown operations/attributes fall back to the opaque container and the unknown-object error is checked before the object is decoded at every call site. Byte-identity of opaque re-encoding is value-level and not decided.",
+   text="Exhaustive over the three registries (27 operations x 2 directions, 9 object types, 50 attributes): each registered type implements the interface the reflective constructor asserts, reports the code it is registered under, occupies one slot, and has the TTLV kind of the hand-written specification table; the batch-item decoders pick the payload constructor of their own direction from their own decoded Operation; unknown operations/attributes fall back to the opaque container and the unknown-object error is checked before the object is decoded at every call site; the attribute decoder stores the typed value on every success exit of a known attribute, looks the type table up with the exact name, and the generic decoder fills the value pre-seeded behind an interface instead of replacing it (so the opaque payload keeps its operation code). Byte-identity of opaque re-encoding is value-level and not decided.",
    ref="§4 C06"),
 }
 
